@@ -25,6 +25,17 @@ CLAIMED = {
         note="The property is an implication (healthy only when ...): reporting unhealthy is never rejected. Membership semantics for a "
              "repeated id: the last successful add wins. Replication factor 1.",
         ref="DESIGN.md §4 C33"),
+    "C09": dict(
+        text="Txn.tla models GraphStore's transaction table (begin, recorded write sets, commit with first-committer-wins conflict "
+             "detection, abort, GC forgetting finished transactions) with one action per public call. TLC enumerates ALL interleavings "
+             "of 2 transactions over 3 entities and of 3 transactions over 2 entities, checks FirstCommitterWins, increasing commit "
+             "versions and absorbing terminal states on the design, finds the last-committer-wins counterexample as a self-test, and "
+             "emits one script per transition of the state graph plus random interleavings of 3-4 transactions; each is replayed on the "
+             "real GraphStore and TLC validates every commit/abort outcome, commit version, visible status and the version each active "
+             "transaction reads at (ReadCommitted = current, SnapshotIsolation = start).",
+        note="Bounded: <=4 concurrent transactions, 3 entities. Read versions are observed on one node through a version-marker "
+             "property the harness rewrites after every commit. Error kinds (not found vs not active) are not constrained.",
+        ref="DESIGN.md §4 C09"),
 }
 
 NOT_YET = "check not built yet in this round (planned in DESIGN.md §4); not claimed until its check is green on the unchanged tree"
